@@ -472,6 +472,99 @@ def r8(ctx):
                  what='a TaggedRecord is reused across reads while decoding read names')
 
 
+@rule('C04', 'C04-R9', 'sequencing index: with an index parser configured every accepted header records the raw index (aa), the corrected index (aA) and its '
+                       'identifier (aI) - whether the header carries a sample number or an index sequence - and an index that cannot be resolved is refused with '
+                       'NonMultiplexable; without a parser the raw index is recorded (the molecular identifier barcode+UMI+index is built from aA)')
+def r9(ctx):
+    from ..util import explore, mk_atoms
+    from ..cfg import UNK
+    f = ctx.fn(BASEDEMUX, 'TaggedRecord._parse_illumina_header')
+    par = [a.arg for a in f.args.args]
+    ifp, ifa = (par[2], par[3]) if len(par) >= 4 else ('indexFileParser', 'indexFileAlias')
+    # the index handling starts after the header fields were stored: explore from the first statement that mentions the parser
+    start = next((i for i, st in enumerate(f.body) if ifp in names_in(st)), None)
+    if start is None:
+        raise AnalysisError('_parse_illumina_header: index handling not found')
+    body = f.body[start - 1:] if start > 0 and isinstance(f.body[start - 1], ast.Assign) and 'tags' in src(f.body[start - 1].targets[0]) else f.body[start:]
+
+    def may_raise(kind, a):
+        if kind in ('with_exit', 'except') or isinstance(a, ast.Raise):
+            return set()
+        tgt = a.test if kind == 'test' else a.iter if kind == 'for' else a
+        # int(<index text>) raises ValueError for an index sequence; the whitelist lookup returns (None, None, None) instead of raising
+        return {'ValueError'} if any(isinstance(c, ast.Call) and src(c.func) == 'int' for c in walk_no_nested(tgt)) else set()
+    bad = []
+    n = 0
+    for configured in (True, False):
+        for resolved in (True, False):
+            facts = {f'{ifp} is not None': configured, f'{ifa} is not None': configured, 'correctedIndex is not None': resolved, 'correctedIndex is None': not resolved}
+            for r in explore(body, mk_atoms(facts), names=None, may_raise=may_raise, is_subclass=ctx.ix.is_subclass_name):
+                n += 1
+                stored = {t for t, v, k in r['stores'] if t.startswith('self.tags[')}
+                upd = [c for c in r['calls'] if c.startswith('self.tags.update(')]
+                has = {'aa': "self.tags['aa']" in stored or any("'aa'" in c for c in upd), 'aA': any("'aA'" in c for c in upd) or "self.tags['aA']" in stored,
+                       'aI': any("'aI'" in c for c in upd) or "self.tags['aI']" in stored}
+                numeric = 'exc:ValueError' not in (r['path'] or '')
+                if r['kind'] == 'raise':
+                    tok = last_raise(r['stmt'])
+                    # a sample number is its own corrected index: it is never refused; an unresolved sequence is refused with NonMultiplexable
+                    if tok != 'NonMultiplexable' or not configured or (numeric and resolved):
+                        bad.append((configured, numeric, resolved, f'raises {tok}'))
+                    continue
+                want = {'aa', 'aA', 'aI'} if configured else {'aa'}
+                if configured and not resolved and not numeric:
+                    bad.append((configured, numeric, resolved, 'an index that matches no whitelist entry is accepted'))
+                    continue
+                if configured and not resolved and numeric:
+                    continue        # infeasible: a sample number resolves to itself (the atom valuation does not know that)
+                missing = sorted(k for k in want if not has[k])
+                if missing:
+                    bad.append((configured, numeric, resolved, f'tags {missing} are not recorded'))
+    ctx.counters['paths_enumerated'] += n
+    ctx.need('C04-R9', n, 4, 'paths through the index handling of _parse_illumina_header')
+    ctx.emit('C04-R9', not bad, BASEDEMUX, f, f'{n} paths over (parser configured, sample number / index sequence, resolved): aa always, aA + aI whenever a parser is configured, unresolved -> NonMultiplexable' if not bad else
+             f'parser configured={bad[0][0]}, header carries a {"sample number" if bad[0][1] else "index sequence"}, resolved={bad[0][2]}: {bad[0][3]} - the tagger then builds no molecular identifier for the read',
+             key='index-tags-recorded', witness={'parser configured': bad[0][0], 'sample number': bad[0][1], 'resolved': bad[0][2], 'problem': bad[0][3]} if bad else None,
+             what='_parse_illumina_header: corrected sequencing index / identifier not recorded on an accepted header')
+
+
+def last_raise(stmt):
+    if stmt is None or not isinstance(stmt, ast.Raise) or stmt.exc is None:
+        return '<reraise>'
+    e = stmt.exc.func if isinstance(stmt.exc, ast.Call) else stmt.exc
+    return (dotted(e) or '?').split('.')[-1]
+
+
+@rule('C04', 'C04-R10', 'the library reaches every record: a strategy that delegates to another demultiplexer (its base class, the Illumina base layer or a '
+                        'sub-strategy it owns) forwards its keyword arguments - the library name travels in them and becomes the LY tag the sample is derived from')
+def r10(ctx):
+    files = [BASEDEMUX] + [p_ for p_ in ctx.ix.pyfiles() if p_.startswith(DEMUXMODS)]
+    n = 0
+    bad = []
+    for rel in files:
+        m = ctx.ix.module(rel)
+        for q, defs in m.defs.items():
+            for f in defs:
+                if not (isinstance(f, ast.FunctionDef) and f.name == 'demultiplex' and '.' in q):
+                    continue
+                kw = f.args.kwarg.arg if f.args.kwarg else None
+                has_lib = any(a.arg == 'library' for a in f.args.args + f.args.kwonlyargs)
+                if kw is None and not has_lib:
+                    continue
+                for c in walk_no_nested(f):
+                    if isinstance(c, ast.Call) and isinstance(c.func, ast.Attribute) and c.func.attr == 'demultiplex':
+                        n += 1
+                        fwd = any(k.arg is None and isinstance(k.value, ast.Name) and k.value.id == kw for k in c.keywords) or any(k.arg == 'library' for k in c.keywords)
+                        if not fwd:
+                            bad.append((rel, q, c))
+    ctx.need('C04-R10', n, 10, 'delegating demultiplex calls in the strategy modules')
+    for rel, q, c in bad:
+        ctx.emit('C04-R10', False, rel, c, f'{q}: `{src(c)[:80]}` does not forward the keyword arguments: records produced by this delegate carry no library (LY) - the tagger cannot derive the '
+                 f'sample (library_cellindex) for them', key=f'library-forwarded:{q}', what=f'{q}: delegate called without the library')
+    if not bad:
+        ctx.emit('C04-R10', True, BASEDEMUX, None, f'{n} delegating demultiplex calls all forward **kwargs / library', key='library-forwarded')
+
+
 META = {
     'text': ('Decides agreement of the tables the codec halves rely on: the quality encoder is total and saturating over phred 33..126 (clamped table '
              'index or a folded translation table covering every character) and the decoder inverts the same table/offset; every tag the demultiplexer '
@@ -482,3 +575,7 @@ META = {
     'technique': 'static analysis: interval analysis / constant folding of codec tables, tag-table set comparison, taint-style check of quality strings, character-class containment over static whitelist data, sibling agreement of header parsers',
     'design_ref': 'DESIGN.md section 5, C04',
 }
+
+
+from . import shared as _shared
+_shared.register('C04', 'C04')
